@@ -443,8 +443,9 @@ pub fn to_source(top: &AST) -> Result<String, String> {
     tokens(top, Style::minimal()).map(|t| join_plain(&t))
 }
 
-const COMMENT_BODIES: [&str; 10] = [
-    "", " plain ", "*", "**", " a * b / c ", " \"quoted\" 'q' ", " žluťoučký 👍 ", " // nested line ", " begin end if ( ", "/ * /",
+const COMMENT_BODIES: [&str; 16] = [
+    "", " plain ", "*", "**", "***", "* x **", " x ***", " a * b / c ", " \"quoted\" 'q' ", " žluťoučký 👍 ", " // nested line ", " begin end if ( ", "/ * /", "/", "*\n*",
+    " x <- x + 1; ",
 ];
 
 /// Join tokens with a random non-empty separator from the whitespace / comment alphabet
